@@ -501,12 +501,18 @@ func (w *MWorld) applyStack(op Op, self string, el ElemFn) []Alt {
 		}
 		return one(n, self)
 
-	case "SetPushPolicy":
+	case "SetPushPolicy", "SetValidityPolicy", "SetPresentationPolicy", "SetEqualityPolicy", "SetUnmarshaler", "SetMarshaler", "SetLessFunc":
+		kind := polKind[op.M]
 		if !ro {
+			if kind == "pres" && m.Kind == "BASIC" {
+				// refused: an error is recorded and nothing is installed
+				m.Err = "err"
+				return one(n, self)
+			}
 			if len(op.Args) == 0 || op.Args[0].K == "nil" {
-				delete(m.Pol, "push")
+				delete(m.Pol, kind)
 			} else {
-				m.Pol["push"] = int(op.Args[0].I) % nSlots
+				m.Pol[kind] = int(op.Args[0].I) % nSlots
 			}
 		}
 		return one(n, self)
@@ -697,4 +703,9 @@ func auxModel(args []Val) string {
 	}
 	k := strconv.FormatInt(args[0].I, 10)
 	return "aux#" + k + "{k" + k + "=" + k + "}"
+}
+
+var polKind = map[string]string{
+	"SetPushPolicy": "push", "SetValidityPolicy": "valid", "SetPresentationPolicy": "pres", "SetEqualityPolicy": "equal",
+	"SetUnmarshaler": "unmarshal", "SetMarshaler": "marshal", "SetLessFunc": "less", "SetEvaluator": "eval",
 }
